@@ -68,6 +68,7 @@ def dump_job(args):
 def strip_marks(txt):
     txt = re.sub(r' /\*@[^*]*\*/', '', txt)
     txt = re.sub(r'\[[A-Za-z0-9_./]+:\d+\]', '[]', txt)
+    txt = re.sub(r'anon_0x[0-9a-f]+', 'anon', txt)   # clang's node addresses in the names of anonymous records
     return txt
 
 
